@@ -14,6 +14,7 @@ needs no analysis.
 import OdlModel.Model.Deriv
 import OdlModel.Lemmas.Deriv
 import OdlModel.Lemmas.UfuncDeriv
+import OdlModel.Lemmas.DerivAnalytic
 
 open OdlModel.Deriv OdlModel.Deriv.Impl OdlModel.Deriv.Dual
 
@@ -235,3 +236,80 @@ example (n : Nat) (p : Fn × Expr) (x d : Fin n → ℝ) (k : Fin n) :
   simp
 
 end ufunc
+
+section analytic
+open OdlModel.DerivAnalytic OdlModel.UfuncDeriv OdlModel.Gen.UfuncDeriv
+
+/-- General (analytic) soundness of the derivative rules of `operator.py`: for expression trees
+over OPAQUE leaves on a commutative normed `ℝ`-algebra `𝔸` (`ℝⁿ` with the point-wise product,
+`ℝ`; all depths), if every leaf not flagged linear has the Fréchet derivative its class returns
+and every leaf flagged linear is a continuous linear map (`LeafOK`), then for every tree
+`derivative(x)` as coded — `is_linear` short cuts returning the operator itself,
+`left.derivative(right(x))`, `s · op'(s x)`, `op'(v x) · v`, `right(x) · left'(x) +
+left(x) · right'(x)` — is the Fréchet derivative (`HasFDerivAt`) of the tree at `x`.
+The hypothesis on flagged leaves is exactly what C06-F1 violated (an affine operator flagged
+linear). -/
+theorem C06.deriv_sound {𝔸 ι : Type} [NormedCommRing 𝔸] [NormedAlgebra ℝ 𝔸]
+    (L : Leaves 𝔸 ι) (h : LeafOK L) (t : Tree 𝔸 ι) (x : 𝔸) :
+    HasFDerivAt (t.run L) (t.deriv L x) x :=
+  Tree.deriv_sound h t x
+
+namespace OdlModel.C06
+/-- Table entries whose ufunc is differentiable everywhere (`sin, cos, exp, sinh, cosh, square`). -/
+abbrev SmoothEntry := {p : Fn × Expr // p ∈ table ∧ ∀ t : ℝ, p.1.smoothAt t}
+
+/-- Leaves on `ℝⁿ`: the everywhere-smooth ufunc operators with the derivative of the EXTRACTED
+table, and arbitrary continuous linear maps (matrices, scalings, multiplications) flagged linear. -/
+noncomputable def ufuncLeaves (n : Nat) :
+    Leaves (Fin n → ℝ) (SmoothEntry ⊕ ((Fin n → ℝ) →L[ℝ] (Fin n → ℝ))) where
+  f := fun i => match i with
+    | .inl p => fun y k => p.1.1.real (y k)
+    | .inr A => fun y => A y
+  f' := fun i x => match i with
+    | .inl p => ContinuousLinearMap.pi fun k =>
+        (p.1.2.eval p.1.1 (x k)) • (ContinuousLinearMap.proj k : (Fin n → ℝ) →L[ℝ] ℝ)
+    | .inr A => A
+  lin := fun i => match i with | .inl _ => false | .inr _ => true
+  A := fun i => match i with | .inl _ => 0 | .inr A => A
+end OdlModel.C06
+open OdlModel.C06
+
+/-- The leaf contract holds for the ufunc operators with the extracted derivative table and for
+linear leaves. -/
+theorem C06.ufunc_leaves_ok (n : Nat) : LeafOK (ufuncLeaves n) where
+  deriv := by
+    intro i x hl
+    cases i with
+    | inl p => exact C06.ufunc_op_hasFDerivAt n p.1 p.2.1 x (fun k => p.2.2 (x k))
+    | inr A => simp [ufuncLeaves] at hl
+  linear := by
+    intro i hl
+    cases i with
+    | inl p => simp [ufuncLeaves] at hl
+    | inr A => rfl
+
+/-- Hence every expression tree (any depth) mixing everywhere-smooth ufunc operators and linear
+operators on `ℝⁿ` has `derivative(x)` as its Fréchet derivative — transcendental leaves, real
+analysis, no polynomial restriction. -/
+theorem C06.deriv_sound_ufunc (n : Nat)
+    (t : Tree (Fin n → ℝ) (SmoothEntry ⊕ ((Fin n → ℝ) →L[ℝ] (Fin n → ℝ)))) (x : Fin n → ℝ) :
+    HasFDerivAt (t.run (ufuncLeaves n)) (t.deriv (ufuncLeaves n) x) x :=
+  Tree.deriv_sound (C06.ufunc_leaves_ok n) t x
+
+/-- Non-vacuity: there are smooth entries (e.g. `sin ↦ cos`), so the trees of
+`deriv_sound_ufunc` have nonlinear leaves. -/
+example : Nonempty SmoothEntry :=
+  ⟨⟨(Fn.sin, Expr.app Fn.cos), by decide, fun _ => trivial⟩⟩
+
+open Filter Topology in
+/-- The statement of C06 in its own words, for every tree over leaves satisfying the leaf
+contract: the central difference quotient `(op(x + h d) - op(x - h d)) / (2h)` converges to
+`op.derivative(x)(d)` as `h → 0`, for every base point and direction.  (The `O(h²)` RATE is
+proved in the polynomial world only: `central_diff_poly_partial`.) -/
+theorem C06.central_diff_tendsto {𝔸 ι : Type} [NormedCommRing 𝔸] [NormedAlgebra ℝ 𝔸]
+    (L : Leaves 𝔸 ι) (h : LeafOK L) (t : Tree 𝔸 ι) (x d : 𝔸) :
+    Tendsto (fun s : ℝ => (2 * s)⁻¹ • (t.run L (x + s • d) - t.run L (x - s • d)))
+      (𝓝[≠] 0) (𝓝 (t.deriv L x d)) :=
+  central_diff_tendsto_of_hasFDerivAt (t.run L) (t.deriv L x) x d (Tree.deriv_sound h t x)
+
+end analytic
